@@ -17,6 +17,7 @@ from pathlib import Path
 
 VERIF = Path(__file__).resolve().parent.parent
 REPO = Path(os.environ.get("VERIF_REPO", "/repo"))
+OUT = Path(os.environ.get("VERIF_OUT") or VERIF)      # evidence/ and replays/ go here (mutant runs use a scratch dir)
 SPEC = VERIF / "spec"
 WORK = VERIF / ".work"
 SEED = int(os.environ.get("VERIF_SEED", "0") or 0)
@@ -138,7 +139,7 @@ class Check:
         self.rule = ""
         self.exhaustive = False
         self.legs = {}
-        for old in (VERIF / "replays").glob("%s-%s-*.json" % (pid, tier)):
+        for old in (OUT / "replays").glob("%s-%s-*.json" % (pid, tier)):
             old.unlink()
 
     # -- bookkeeping ------------------------------------------------------------------------
@@ -181,7 +182,7 @@ class Check:
         for kid, (k, n) in sorted(seen_known.items()):
             print("KNOWN-FINDING: property=%s %s [%s; %d occurrence(s) this run]" % (self.pid, k["what"], kid, n))
         rc = 0
-        rdir = VERIF / "replays"
+        rdir = OUT / "replays"
         rdir.mkdir(exist_ok=True)
         shown = set()
         for n, (sig, desc, replay) in enumerate(new):
@@ -224,7 +225,7 @@ class Check:
             "wall_s": round(time.time() - self.t0, 2),
             "violations": len(new),
         }
-        edir = VERIF / "evidence"
+        edir = OUT / "evidence"
         edir.mkdir(exist_ok=True)
         (edir / (self.pid + ".json")).write_text(json.dumps(ev, indent=1, default=str))
         print("%s tier=%s seed=%d: states=%d transitions=%d impl_executions=%d violations=%d known=%d wall=%.1fs"
